@@ -110,12 +110,12 @@ where
         Spawned::A(a) => {
             exec::bind_ctx(verif::addr_id(&a), aid);
             e(&[ev::HANDLE as usize, hid, aid, HKind::Addr as usize]);
-            HEnt { hid, aid, h: H::Addr(SA::<TY>::wa(a)) }
+            HEnt { hid, aid, h: H::Addr(SA::<TY>::wa(a)), spent: false }
         }
         Spawned::O(o) => {
             exec::bind_ctx(verif::addr_id(o.as_addr()), aid);
             e(&[ev::HANDLE as usize, hid, aid, HKind::Owning as usize]);
-            HEnt { hid, aid, h: H::Owning(SA::<TY>::wo(o)) }
+            HEnt { hid, aid, h: H::Owning(SA::<TY>::wo(o)), spent: false }
         }
     }
 }
